@@ -16,6 +16,7 @@ def fhex(x):
 def cq(x):
     """Coq float literal"""
     x = float(x)
+    if math.isinf(x): return "infinity" if x > 0 else "neg_infinity"
     if x == 0.0 and math.copysign(1, x) < 0: return "(-0)"
     return "(%s)" % x.hex()
 
@@ -63,7 +64,8 @@ class Space:
         return self.kind == kind or (self.kind == "CO" and any(s.has(kind) for _, s in self.subs))
 
 
-def gen_space(rng, depth):
+def gen_space(rng, depth, unbounded=False):
+    """unbounded: also generate R^n dimensions with bounds (-inf, +inf) (C06: extents of compounds with infinite components)"""
     r = rng.random()
     if depth == 0 or r < 0.5:
         k = rng.choice(["RV", "RV", "SO2", "SO2", "TB", "TU", "DI"])
@@ -71,7 +73,8 @@ def gen_space(rng, depth):
             n = rng.randint(1, 3); bs = []
             for _ in range(n):
                 lo = rng.choice([-1.0, 0.0, -2.5, -1e3, 0.25]); w = rng.choice([1.0, 2.0, 0.0, 1e3, 0.5, 1e-9])
-                bs.append((lo, lo + w))
+                if unbounded and rng.random() < 0.15: bs.append((float("-inf"), float("inf")))
+                else: bs.append((lo, lo + w))
             return Space("RV", bounds=bs)
         if k == "TB":
             lo = rng.choice([0.0, -1.0, 2.0]); return Space("TB", lo=lo, hi=lo + rng.choice([1.0, 10.0, 0.0]))
@@ -79,7 +82,7 @@ def gen_space(rng, depth):
             lo = float(rng.randint(-3, 2)); return Space("DI", lo=lo, hi=lo + rng.randint(0, 6))
         return Space(k)
     n = rng.randint(1, 3)
-    return Space("CO", subs=[(rng.choice([1.0, 0.5, 2.0, 0.0, 1e-3, 3.0]), gen_space(rng, depth - 1)) for _ in range(n)])
+    return Space("CO", subs=[(rng.choice([1.0, 0.5, 2.0, 0.0, 1e-3, 3.0]), gen_space(rng, depth - 1, unbounded)) for _ in range(n)])
 
 
 def ulp_step(x, k):
@@ -95,6 +98,7 @@ def gen_vals(rng, sp, mode="in"):
             for _, t in s.subs: go(t)
         elif s.kind == "RV":
             for lo, hi in s.bounds:
+                if math.isinf(lo) or math.isinf(hi): out.append(rng.choice([0.0, 1.5, -2.25, rng.uniform(-5, 5)])); continue
                 if mode == "out": out.append(rng.choice([lo - rng.uniform(0, 50), hi + rng.uniform(0, 50), rng.uniform(lo, hi)]))
                 elif mode == "seam": out.append(rng.choice([lo, hi, (lo + hi) / 2]))
                 else: out.append(lo + (hi - lo) * rng.random())
